@@ -30,7 +30,10 @@ Inductive op : Type :=
    2 FloorEntry k, 3 CeilingEntry k, 4 HigherEntry k, 5 getLowerEntry k *)
 | SetValueAt (acc k v : Z)           (* e := accessor; if e != nil: e.SetValue(v) *)
 | EntryEquals (acc1 k1 acc2 k2 : Z)  (* e1.Equals(e2) when both accessors return an entry *)
-| IterSetValue (slot v : Z).         (* SetValue on the entry the last Next of an entry iterator
+| IterSetValue (slot v : Z)
+(* the exported iterator constructors take the entry to start at: New*Iterator(m, accessor) *)
+| IterNewAt (kind slot acc k : Z)
+| ForeachPut (i k v : Z).            (* Foreach whose i-th callback (from 0) calls Put k v *)         (* SetValue on the entry the last Next of an entry iterator
                                         returned, provided the map was not modified since *)
 
 (* panic kinds of the iterators *)
@@ -215,6 +218,27 @@ Definition sstep (s : sstate) (o : op) : sstate * out :=
       | Some a, Some b => (s, OBool (kv_same a b))
       | _, _ => (s, OUnit)
       end
+  | IterNewAt kind slot acc k =>
+      if kind_ok kind then
+        let ks := map fst l in
+        let pend := match sl_access acc k l with
+                    | Some (k0, _) =>
+                        if kind_asc kind then filter (fun x => k0 <=? x) ks
+                        else filter (fun x => x <=? k0) (rev ks)
+                    | None => []
+                    end in
+        (s_with_iter s slot (mk_siter kind pend None (s_ver s)), OUnit)
+      else (s, OUnit)
+  | ForeachPut i k v =>
+      if (0 <=? i) && (i <? Z.of_nat (length l)) then
+        let n := S (Z.to_nat i) in
+        match sl_lookup k l with
+        | Some _ =>   (* a replacement is no modification: the walk goes on and sees the new value *)
+            let l' := sl_insert k v l in
+            (s_with_list s l' false, OEntsP (firstn n l ++ skipn n l') false)
+        | None => (s_with_list s (sl_insert k v l) true, OEntsP (firstn n l) true)
+        end
+      else (s, OEntsP l false)
   | IterSetValue slot v =>
       match s_its s slot with
       | Some it =>
